@@ -53,6 +53,21 @@
 #define swap igv_qsort_swap
 #define seed igv_rand_seed
 
+/* Prototypes under the renamed names (round 3c): the host's <stdlib.h>/<inttypes.h> declared the functions before
+ * the #defines above, so without these a library file that calls one of them BEFORE its definition in this
+ * translation unit (strtoll.c calling strtoull, say) would be an implicit declaration = a compile error in the
+ * shim instead of a run judged by the oracles.  The types are the ISO ones. */
+long strtol(const char *, char **, int);
+unsigned long strtoul(const char *, char **, int);
+long long strtoll(const char *, char **, int);
+unsigned long long strtoull(const char *, char **, int);
+intmax_t strtoimax(const char *, char **, int);
+uintmax_t strtoumax(const char *, char **, int);
+long atol(const char *);
+int atoi(const char *);
+int rand(void);
+void srand(unsigned int);
+
 /* Each file is included when it exists: a file that was merged into another one / split is then a LINK
  * error naming the missing public function (or nothing at all, for the optional strtoq/strtouq), not a
  * confusing preprocessor error in the shim. */
